@@ -455,3 +455,39 @@ PROPS = {
                        "one-terminator corollary; data-race and deadlock freedom are observed, not proved",
     },
 }
+
+
+# ---------------------------------------------------------------------------------------------------------------
+# regenerated tie: theorems that the constants / straight-line functions / lock structure / dial table extracted from
+# the repository on this run (lean/Stun/Gen/Generated.lean) equal what the hand-written model uses
+_C = "Stun.Tie."
+_CODEC_CONSTS = [_C + n for n in ("magicCookie", "attributeHeaderSize", "messageHeaderSize", "transactionIDSize", "padding",
+                                  "nearestPaddedValueLength", "compatAttrType", "typeValue_translated")]
+TIE = {
+    "C19": (["Stun.Tie.Funcs"], [_C + "typeValue", _C + "readValue", _C + "typeValue_translated"]),
+    "C01": (["Stun.Tie.Consts", "Stun.Tie.Funcs"], _CODEC_CONSTS),
+    "C02": (["Stun.Tie.Consts", "Stun.Tie.Funcs"], _CODEC_CONSTS),
+    "C03": (["Stun.Tie.Consts", "Stun.Tie.Funcs"], _CODEC_CONSTS),
+    "C04": (["Stun.Tie.Consts"], [_C + "messageIntegritySize", _C + "attrTypes", _C + "attributeHeaderSize"]),
+    "C05": (["Stun.Tie.Consts"], [_C + "fingerprintXORValue", _C + "fingerprintSize", _C + "attrTypes"]),
+    "C06": (["Stun.Tie.Consts"], [_C + "familyIPv4", _C + "familyIPv6", _C + "attrTypes", _C + "attrTypeSize"]),
+    "C07": (["Stun.Tie.Consts"], [_C + "maxUsernameB", _C + "maxRealmB", _C + "maxNonceB", _C + "softwareRawMaxB",
+                                  _C + "errorCodeReasonMaxB", _C + "attrTypes"]),
+    "C08": (["Stun.Tie.Consts"], [_C + "attrTypes", _C + "attributeHeaderSize", _C + "padding"]),
+    "C09": (["Stun.Tie.Consts"], [_C + "errorReasons", _C + "errorCodeReasonStart", _C + "errorCodeModulo",
+                                  _C + "errorCodeBytes", _C + "errorCodeReasonMaxB"]),
+    "C10": (["Stun.Tie.Consts", "Stun.Tie.Funcs", "Stun.Tie.Locks"], [_C + "clientDefaults", _C + "nextTimeout", _C + "clientLocks"]),
+    "C11": (["Stun.Tie.Consts", "Stun.Tie.Funcs", "Stun.Tie.Locks"], [_C + "clientDefaults", _C + "nextTimeout", _C + "clientLocks"]),
+    "C12": (["Stun.Tie.Consts", "Stun.Tie.Locks"], [_C + "clientDefaults", _C + "clientLocks", _C + "transactionIDSize"]),
+    "C13": (["Stun.Tie.Locks"], [_C + "agentLocks"]),
+    "C14": (["Stun.Tie.Locks"], [_C + "agentLocks"]),
+    "C15": (["Stun.Tie.Locks"], [_C + "clientLocks"]),
+    "C16": (["Stun.Tie.Consts"], [_C + "defaultPorts", _C + "schemeProtoCodes"]),
+    "C17": (["Stun.Tie.Consts", "Stun.Tie.Locks"], [_C + "defaultPorts", _C + "schemeProtoCodes", _C + "dialTable"]),
+}
+for _pid, (_mods, _thms) in TIE.items():
+    if _pid in PROPS:
+        PROPS[_pid]["modules"] = PROPS[_pid]["modules"] + [m for m in _mods if m not in PROPS[_pid]["modules"]]
+        PROPS[_pid]["theorems"] = PROPS[_pid]["theorems"] + [t for t in _thms if t not in PROPS[_pid]["theorems"]]
+        PROPS[_pid]["tie_theorems"] = _thms
+
